@@ -150,7 +150,7 @@ INFO = {
         strengthening="StateInterp.tla: nested vmaps (also around / inside scans and namespaces)"),
     "R2_C20_smoother_joseph_swapped": dict(property="C20", change="the smoothed covariance is rewritten in a Joseph form with I - A G instead of I - G A",
         needs="d_state >= 2, A not commuting with the smoother gain, T >= 2",
-        first_result="see checks_on_changed_tree_now", strengthening=""),
+        first_result="caught", strengthening=""),
 }
 
 
